@@ -15,24 +15,40 @@ theorem isDigit_iff (c : Char) : isDigit c = true ↔ 48 ≤ c.toNat ∧ c.toNat
   simp only [isDigit, Bool.and_eq_true, decide_eq_true_eq]
   exact Iff.rfl
 
-theorem isPySpace_toNat {c : Char} (h : isPySpace c = true) : c.toNat ≤ 32 := by
-  simp only [isPySpace, Bool.or_eq_true, beq_iff_eq, Bool.and_eq_true, decide_eq_true_eq] at h
-  rcases h with (((((rfl | rfl) | rfl) | rfl) | h) | h) | h
-  · decide
-  · decide
-  · decide
-  · decide
-  · omega
-  · omega
-  · omega
+/-- printable ASCII is never white space (the non-ASCII spaces of `isUniSpace` all lie above 127) -/
+theorem not_space_of_gt {c : Char} (h : 32 < c.toNat) (h' : c.toNat < 128) : isPySpace c = false := by
+  have h0 : c ≠ ' ' := by rintro rfl; revert h; decide
+  have h1 : c ≠ '\t' := by rintro rfl; revert h; decide
+  have h2 : c ≠ '\n' := by rintro rfl; revert h; decide
+  have h3 : c ≠ '\r' := by rintro rfl; revert h; decide
+  simp only [isPySpace, isUniSpace, Bool.or_eq_false_iff, beq_eq_false_iff_ne, ne_eq, Bool.and_eq_false_iff,
+    decide_eq_false_iff_not]
+  refine ⟨⟨⟨⟨⟨⟨⟨h0, h1⟩, h2⟩, h3⟩, ?_⟩, ?_⟩, ?_⟩, ⟨⟨⟨⟨⟨⟨⟨⟨?_, ?_⟩, ?_⟩, ?_⟩, ?_⟩, ?_⟩, ?_⟩, ?_⟩, ?_⟩⟩ <;> omega
 
-theorem not_space_of_gt {c : Char} (h : 32 < c.toNat) : isPySpace c = false := by
-  cases hs : isPySpace c with
-  | false => rfl
-  | true => have := isPySpace_toNat hs; omega
+theorem isDigit_not_space {c : Char} (h : isDigit c = true) : isPySpace c = false := by
+  have := (isDigit_iff c).1 h
+  exact not_space_of_gt (by omega) (by omega)
 
-theorem isDigit_not_space {c : Char} (h : isDigit c = true) : isPySpace c = false :=
-  not_space_of_gt (by have := (isDigit_iff c).1 h; omega)
+/-! ### what `int()` / `float()` see: `numText` on ASCII text -/
+
+theorem foldChar_ascii {c : Char} (h : c.toNat < 128) : foldChar c = c := by simp [foldChar, h]
+
+theorem not_cspace_of_gt {c : Char} (h : 32 < c.toNat) : isCSpace c = false := by
+  have h0 : c ≠ ' ' := by rintro rfl; revert h; decide
+  simp only [isCSpace, Bool.or_eq_false_iff, beq_eq_false_iff_ne, ne_eq, Bool.and_eq_false_iff,
+    decide_eq_false_iff_not]
+  exact ⟨h0, by omega⟩
+
+theorem isDigit_ascii {c : Char} (h : isDigit c = true) : c.toNat < 128 := by
+  have := (isDigit_iff c).1 h; omega
+
+theorem isDigit_not_cspace {c : Char} (h : isDigit c = true) : isCSpace c = false :=
+  not_cspace_of_gt (by have := (isDigit_iff c).1 h; omega)
+
+theorem map_foldChar_of_ascii : ∀ (s : Str), (∀ c ∈ s, c.toNat < 128) → s.map foldChar = s
+  | [], _ => rfl
+  | c :: r, h => by
+    rw [List.map_cons, foldChar_ascii (h c (by simp)), map_foldChar_of_ascii r (fun x hx => h x (by simp [hx]))]
 
 theorem charIsDigit_isDigit {c : Char} (h : c.isDigit = true) : isDigit c = true := by
   rw [isDigit_iff]
@@ -77,6 +93,44 @@ theorem strip_of_all (t : Str) (h : ∀ c ∈ t, isPySpace c = false) : strip t 
   unfold strip
   rw [dropWhile_of_all t h, dropWhileEnd_of_all t h]
 
+/-- ASCII text without C white space is what `int()` / `float()` parse, unchanged -/
+theorem numText_of_all (t : Str) (ha : ∀ c ∈ t, c.toNat < 128) (h : ∀ c ∈ t, isCSpace c = false) :
+    numText t = t := by
+  unfold numText
+  simp only [map_foldChar_of_ascii t ha]
+  rw [dropWhile_of_all t h, dropWhileEnd_of_all t h]
+
+theorem numText_replicate_append (k : Nat) (t : Str) : numText (List.replicate k ' ' ++ t) = numText t := by
+  have hf : foldChar ' ' = ' ' := foldChar_ascii (by decide)
+  have hd : ∀ (k : Nat) (u : Str), (List.replicate k ' ' ++ u).dropWhile isCSpace = u.dropWhile isCSpace := by
+    intro k u
+    induction k with
+    | zero => simp
+    | succ k ih =>
+      have : isCSpace ' ' = true := by decide
+      simp only [List.replicate_succ, List.cons_append, List.dropWhile, this, ih]
+  unfold numText
+  simp only [List.map_append, List.map_replicate, hf, hd]
+
+theorem dropWhileEnd_cons_keep {p : Char → Bool} {c : Char} (hc : p c = false) (r : Str) :
+    dropWhileEnd p (c :: r) = c :: dropWhileEnd p r := by
+  have key : ∀ l : List Char, (l ++ [c]).dropWhile p = l.dropWhile p ++ [c] := by
+    intro l
+    induction l with
+    | nil => simp [List.dropWhile, hc]
+    | cons a l ih =>
+      by_cases ha : p a = true
+      · simp [List.dropWhile, ha, ih]
+      · simp [List.dropWhile, ha]
+  simp [dropWhileEnd, key]
+
+/-- a text that starts with an ASCII character other than C white space keeps that start -/
+theorem numText_cons {c : Char} (ha : c.toNat < 128) (hc : isCSpace c = false) (r : Str) :
+    numText (c :: r) = c :: dropWhileEnd isCSpace (r.map foldChar) := by
+  unfold numText
+  simp only [List.map_cons, foldChar_ascii ha, List.dropWhile, hc]
+  exact dropWhileEnd_cons_keep hc _
+
 theorem digitsGo_one : ∀ (ds : Str), (∀ c ∈ ds, isDigit c = true) → digitsGo 1 ds = some ds := by
   intro ds
   induction ds with
@@ -95,7 +149,8 @@ theorem digitsWithUnderscores_digits (ds : Str) (hne : ds ≠ []) (h : ∀ c ∈
 
 theorem pyInt_digits (ds : Str) (hne : ds ≠ []) (h : ∀ c ∈ ds, isDigit c = true)
     (hlen : ds.length ≤ intMaxStrDigits) : pyInt ds = .ok (natOfDigits ds : Int) := by
-  have hstrip : strip ds = ds := strip_of_all ds (fun c hc => isDigit_not_space (h c hc))
+  have hstrip : numText ds = ds :=
+    numText_of_all ds (fun c hc => isDigit_ascii (h c hc)) (fun c hc => isDigit_not_cspace (h c hc))
   have hmatch : pyInt.match_1 (fun _ => Bool × List Char) ds
       (fun r => (true, r)) (fun r => (false, r)) (fun r => (false, r)) = (false, ds) := by
     split
@@ -109,11 +164,15 @@ theorem pyInt_digits (ds : Str) (hne : ds ≠ []) (h : ∀ c ∈ ds, isDigit c =
 
 theorem pyInt_neg_digits (ds : Str) (hne : ds ≠ []) (h : ∀ c ∈ ds, isDigit c = true)
     (hlen : ds.length ≤ intMaxStrDigits) : pyInt ('-' :: ds) = .ok (-(natOfDigits ds : Int)) := by
-  have hstrip : strip ('-' :: ds) = '-' :: ds := strip_of_all _ (by
+  have hstrip : numText ('-' :: ds) = '-' :: ds := numText_of_all _ (by
     intro c hc
     rcases List.mem_cons.1 hc with rfl | hc
     · decide
-    · exact isDigit_not_space (h c hc))
+    · exact isDigit_ascii (h c hc)) (by
+    intro c hc
+    rcases List.mem_cons.1 hc with rfl | hc
+    · decide
+    · exact isDigit_not_cspace (h c hc))
   unfold pyInt
   simp only [hstrip, digitsWithUnderscores_digits ds hne h]
   rw [if_neg (by omega)]
@@ -387,10 +446,8 @@ namespace LineM
 
 theorem pyFloatOk_head_false (r : Str) (c : Char) (hc : c = 'C' ∨ c = 'M' ∨ c = 'R')
     (htok : ∀ x ∈ c :: r, isPySpace x = false) : pyFloatOk (c :: r) = false := by
-  have hstrip := strip_of_all _ htok
   unfold pyFloatOk
-  rw [hstrip]
-  rcases hc with rfl | rfl | rfl
+  rcases hc with rfl | rfl | rfl <;> rw [numText_cons (by decide) (by decide)]
   · have : Char.toLower 'C' = 'c' := by decide
     simp [this, List.span, List.span.loop, isDigit]
   · have : Char.toLower 'M' = 'm' := by decide
